@@ -164,7 +164,17 @@ def check_resume(ctx, R="C13.resume"):
             ctx.ok(R, vis, f"{name} returned by a block is consumed after runTryInterrupt")
         else:
             ctx.finding(R, vis, f"{name} consumer", f"visit_TryInterrupt has no `result is {f}` test after runTryInterrupt: `{name.lower()}` inside a handler would be ignored")
-    if "newBody.append(ast.Return(finishedFlag))" in vt:
+    mk = [f for f in ast.walk(vis) if isinstance(f, ast.FunctionDef) and f is not vis and any(isinstance(c, ast.Call) and dotted(c.func) == "ast.FunctionDef" for c in ast.walk(f))]
+    term = False
+    for f in mk:
+        built = [c for c in ast.walk(f) if isinstance(c, ast.Call) and dotted(c.func) == "ast.FunctionDef" and len(c.args) >= 3 and isinstance(c.args[2], ast.Name)]
+        for b in built:
+            bodyv = b.args[2].id
+            stmts = [unparse(x) for x in f.body]
+            ap = f"{bodyv}.append(ast.Return(finishedFlag))"
+            if ap in stmts and not any(f"{bodyv}.append(" in t_ or f"{bodyv}.insert(len" in t_ for t_ in stmts[stmts.index(ap) + 1 :]):
+                term = True
+    if term:
         ctx.ok(R, vis, "every block ends by returning FINISHED")
     else:
         ctx.finding(R, vis, "FINISHED terminator", "compiled interrupt blocks no longer end with `return BlockConclusion.FINISHED`")
